@@ -202,6 +202,8 @@ pub struct Probe {
 
 pub struct De<'p> {
     pub items: Vec<u64>,
+    /// as a sequence, every element is a (key, value) pair taken from two consecutive items
+    pub pairs: bool,
     pub is_map: bool,
     pub hint: Option<usize>,
     /// fail when this element (entry index) is requested
@@ -265,9 +267,43 @@ impl<'de, 'p> MapAccess<'de> for De<'p> {
         self.hint
     }
 }
+/// A two-element tuple (key, value) as a deserializer.
+struct PairDe(u64, u64, u8);
+impl<'de> Deserializer<'de> for PairDe {
+    type Error = Er;
+    fn deserialize_any<V: Visitor<'de>>(self, v: V) -> Result<V::Value, Er> {
+        v.visit_seq(self)
+    }
+    serde::forward_to_deserialize_any! { bool i8 i16 i32 i64 i128 u8 u16 u32 u64 u128 f32 f64 char str string bytes byte_buf option unit unit_struct newtype_struct seq tuple tuple_struct map struct enum identifier ignored_any }
+}
+impl<'de> SeqAccess<'de> for PairDe {
+    type Error = Er;
+    fn next_element_seed<T: DeserializeSeed<'de>>(&mut self, seed: T) -> Result<Option<T::Value>, Er> {
+        let v = match self.2 {
+            0 => self.0,
+            1 => self.1,
+            _ => return Ok(None),
+        };
+        self.2 += 1;
+        seed.deserialize(U64De(v)).map(Some)
+    }
+    fn size_hint(&self) -> Option<usize> {
+        Some(2 - self.2.min(2) as usize)
+    }
+}
+
 impl<'de, 'p> SeqAccess<'de> for De<'p> {
     type Error = Er;
     fn next_element_seed<T: DeserializeSeed<'de>>(&mut self, seed: T) -> Result<Option<T::Value>, Er> {
+        if self.pairs {
+            self.on_request(self.pos / 2)?;
+            if self.pos + 1 >= self.items.len() {
+                return Ok(None);
+            }
+            let (a, b) = (self.items[self.pos], self.items[self.pos + 1]);
+            self.pos += 2;
+            return seed.deserialize(PairDe(a, b, 0)).map(Some);
+        }
         self.on_request(self.pos)?;
         if self.pos >= self.items.len() {
             return Ok(None);
@@ -338,7 +374,7 @@ fn map_case<K: Elem + Serialize + for<'d> de::Deserialize<'d>, V: Elem + Seriali
         let mut probe = Probe { bytes_at_first: None, max_request_at_first: 0 };
         let base = ckalloc::counters().live_bytes;
         ckalloc::reset_peak();
-        let de = De { items: toks.items.clone(), is_map: true, hint: *hint, fail_at: None, pos: 0, probe: &mut probe };
+        let de = De { pairs: false, items: toks.items.clone(), is_map: true, hint: *hint, fail_at: None, pos: 0, probe: &mut probe };
         let r: Result<M<K, V>, Er> = de::Deserialize::deserialize(de);
         c.evaluations += 1;
         c.sig_parts(&[1, hi as u64, (n_entries == 0) as u64, crate::ctx::prop_salt(K::NAME)]);
@@ -377,7 +413,7 @@ fn map_case<K: Elem + Serialize + for<'d> de::Deserialize<'d>, V: Elem + Seriali
             last.insert(k, v);
         }
         let mut probe = Probe { bytes_at_first: None, max_request_at_first: 0 };
-        let de = De { items, is_map: true, hint: Some(rng.usize_below(n + 3)), fail_at: None, pos: 0, probe: &mut probe };
+        let de = De { pairs: false, items, is_map: true, hint: Some(rng.usize_below(n + 3)), fail_at: None, pos: 0, probe: &mut probe };
         let r: Result<M<K, V>, Er> = de::Deserialize::deserialize(de);
         c.evaluations += 1;
         c.sig_parts(&[2, nk as u64, (n > nk as usize) as u64]);
@@ -406,7 +442,7 @@ fn map_case<K: Elem + Serialize + for<'d> de::Deserialize<'d>, V: Elem + Seriali
         let live0 = elem::live_now();
         let blocks0 = ckalloc::counters().live_blocks;
         let mut probe = Probe { bytes_at_first: None, max_request_at_first: 0 };
-        let de = De { items: toks.items.clone(), is_map: true, hint: Some(n), fail_at: Some(at), pos: 0, probe: &mut probe };
+        let de = De { pairs: false, items: toks.items.clone(), is_map: true, hint: Some(n), fail_at: Some(at), pos: 0, probe: &mut probe };
         let r: Result<M<K, V>, Er> = de::Deserialize::deserialize(de);
         c.evaluations += 1;
         c.sig_parts(&[3, (at == 0) as u64 + 2 * (at == n) as u64, crate::ctx::prop_salt(K::NAME)]);
@@ -458,7 +494,7 @@ fn set_case<T: Elem + Serialize + for<'d> de::Deserialize<'d>>(c: &mut Ctx, rng:
             }
             let base = ckalloc::counters().live_bytes;
             ckalloc::reset_peak();
-            let de = De { items: toks.items.clone(), is_map: false, hint: *hint, fail_at: None, pos: 0, probe: &mut probe };
+            let de = De { pairs: false, items: toks.items.clone(), is_map: false, hint: *hint, fail_at: None, pos: 0, probe: &mut probe };
             c.evaluations += 1;
             c.sig_parts(&[4, hi as u64, in_place as u64, crate::ctx::prop_salt(T::NAME)]);
             let r: Result<S<T>, Er> = if in_place {
@@ -493,7 +529,7 @@ fn set_case<T: Elem + Serialize + for<'d> de::Deserialize<'d>>(c: &mut Ctx, rng:
         let items: Vec<u64> = (0..n).map(|i| pack(rng.below(nk as u64) as u32 % T::ID_SPACE, i as u16)).collect();
         let distinct: std::collections::BTreeSet<u32> = items.iter().map(|v| (*v >> 16) as u32).collect();
         let mut probe = Probe { bytes_at_first: None, max_request_at_first: 0 };
-        let de = De { items, is_map: false, hint: Some(n), fail_at: None, pos: 0, probe: &mut probe };
+        let de = De { pairs: false, items, is_map: false, hint: Some(n), fail_at: None, pos: 0, probe: &mut probe };
         let r: Result<S<T>, Er> = de::Deserialize::deserialize(de);
         c.evaluations += 1;
         c.sig_parts(&[6, nk as u64, (n > nk as usize) as u64]);
@@ -517,7 +553,7 @@ fn set_case<T: Elem + Serialize + for<'d> de::Deserialize<'d>>(c: &mut Ctx, rng:
     for at in positions {
         let live0 = elem::live_now();
         let mut probe = Probe { bytes_at_first: None, max_request_at_first: 0 };
-        let de = De { items: toks.items.clone(), is_map: false, hint: None, fail_at: Some(at), pos: 0, probe: &mut probe };
+        let de = De { pairs: false, items: toks.items.clone(), is_map: false, hint: None, fail_at: Some(at), pos: 0, probe: &mut probe };
         let r: Result<S<T>, Er> = de::Deserialize::deserialize(de);
         c.evaluations += 1;
         c.sig_parts(&[5, (at == 0) as u64 + 2 * (at == n) as u64]);
@@ -550,7 +586,7 @@ fn long_input_case(c: &mut Ctx, rng: &mut Rng) {
     c.sig_parts(&[7, n as u64, hint.map_or(0, |h| (h as u64).min(1 << 40))]);
     ckalloc::reset_peak();
     let mut probe = Probe { bytes_at_first: None, max_request_at_first: 0 };
-    let de = De { items, is_map: true, hint, fail_at: None, pos: 0, probe: &mut probe };
+    let de = De { pairs: false, items, is_map: true, hint, fail_at: None, pos: 0, probe: &mut probe };
     let r = crate::util::catch_expected(|| {
         let m: Result<M<P8, P8>, Er> = de::Deserialize::deserialize(de);
         m
@@ -569,6 +605,67 @@ fn long_input_case(c: &mut Ctx, rng: &mut Rng) {
                 );
             }
             c.bump("long_inputs_checked");
+        }
+    }
+}
+
+/// Inputs of the "wrong" shape for the visitor: a map offered as a sequence of (key, value) pairs (what self-describing
+/// formats do when a map was written as a list), a set offered as a map. Whether such input is accepted or refused
+/// is not stated; what is stated is that no claimed length may drive the allocation, so every visitor entry point a
+/// deserializer can reach is held to the same bound (and to "no panic").
+fn wrong_shape_case(c: &mut Ctx, rng: &mut Rng) {
+    let bh = PlanBH::new(crate::plan::Plan::Mixed, rng.next());
+    crate::plan::set_current(bh.plan, bh.salt);
+    let n = *rng.pick(&[0usize, 1, 3, 40]);
+    let items: Vec<u64> = (0..n as u32).flat_map(|i| [pack(i, 1), pack(i + 500, 2)]).collect();
+    let bound_m = loose_bound_map::<P8, P8>(bh);
+    let bound_s = loose_bound_set::<P8>(bh);
+    let mut d = Json::obj();
+    d.set("case", Json::s(format!("wrong-shape inputs with {} entries", n)));
+    c.describe(d);
+    for (hi, hint) in HINTS.iter().enumerate() {
+        for shape in 0..3 {
+            c.evaluations += 1;
+            c.sig_parts(&[8, hi as u64, shape, (n == 0) as u64]);
+            let mut probe = Probe { bytes_at_first: None, max_request_at_first: 0 };
+            let base = ckalloc::counters().live_bytes;
+            ckalloc::reset_peak();
+            let what = ["HashMap offered a sequence of pairs", "HashSet offered a map", "HashSet (in place) offered a map"][shape as usize];
+            let its = items.clone();
+            let pr = &mut probe;
+            let r = crate::util::catch_expected(move || match shape {
+                0 => {
+                    let de = De { pairs: true, items: its, is_map: false, hint: *hint, fail_at: None, pos: 0, probe: pr };
+                    let m: Result<M<P8, P8>, Er> = de::Deserialize::deserialize(de);
+                    m.map(|m| (m.len(), m.allocation_size())).map_err(|e| e.0)
+                }
+                1 => {
+                    let de = De { pairs: false, items: its, is_map: true, hint: *hint, fail_at: None, pos: 0, probe: pr };
+                    let m: Result<S<P8>, Er> = de::Deserialize::deserialize(de);
+                    m.map(|m| (m.len(), m.allocation_size())).map_err(|e| e.0)
+                }
+                _ => {
+                    let de = De { pairs: false, items: its, is_map: true, hint: *hint, fail_at: None, pos: 0, probe: pr };
+                    let mut place: S<P8> = S::with_hasher_in(bh, CkAlloc);
+                    let r = de::Deserialize::deserialize_in_place(de, &mut place);
+                    r.map(|_| (place.len(), place.allocation_size())).map_err(|e: Er| e.0)
+                }
+            });
+            let bound = if shape == 0 { bound_m } else { bound_s };
+            let cnt = ckalloc::counters();
+            match r {
+                Err(msg) => crate::viol!("{} with claimed length {:?}: panicked: {}", what, hint, msg),
+                Ok(Err(_refused)) => c.bump("wrong_shape_inputs_refused"),
+                Ok(Ok((len, size))) => {
+                    crate::check!(len <= n, "{}: produced {} elements from {} entries", what, len, n);
+                    crate::check!(size <= bound, "{} with claimed length {:?}: the result holds {} bytes for {} elements (bound {})", what, hint, size, len, bound);
+                    c.bump("wrong_shape_inputs_accepted");
+                }
+            }
+            let reserved = probe.bytes_at_first.map_or(0, |b| b.saturating_sub(base));
+            if reserved > bound || cnt.max_request > bound {
+                crate::viol!("{} with claimed length {:?}: {} bytes reserved before the first element, largest request {} bytes (bound = fresh with_capacity(65536) = {} bytes)", what, hint, reserved, cnt.max_request, bound);
+            }
         }
     }
 }
@@ -593,7 +690,7 @@ fn reused_place_case(c: &mut Ctx, rng: &mut Rng) {
         let cap_before = place.capacity();
         let a0 = ckalloc::counters().allocs;
         let mut probe = Probe { bytes_at_first: None, max_request_at_first: 0 };
-        let de = De { items, is_map: false, hint, fail_at: None, pos: 0, probe: &mut probe };
+        let de = De { pairs: false, items, is_map: false, hint, fail_at: None, pos: 0, probe: &mut probe };
         c.evaluations += 1;
         c.sig_parts(&[8, pre as u64, round as u64]);
         let r: Result<(), Er> = de::Deserialize::deserialize_in_place(de, &mut place);
@@ -623,6 +720,7 @@ pub fn run(c: &mut Ctx) {
                 reused_place_case(c, rng)
             }
         }
+        8 if rng.chance(1, 2) => wrong_shape_case(c, rng),
         8 => reused_place_case(c, rng),
         0 => map_case::<T24, T24>(c, rng),
         1 => map_case::<P8, P8>(c, rng),
